@@ -5,7 +5,8 @@
 From RG Require Import Base.Bytes Base.LineTerm Model.Lines Model.SearcherCore Spec.RegexSem
   Model.RegexBuild Model.RegexLiteral Model.CoreLinePaths
   Proofs.RegexSemProofs Proofs.RegexPassesProofs Proofs.RegexLiteralProofs
-  Proofs.LinePathsProofs Proofs.LineLocalityProofs.
+  Proofs.LinePathsProofs Proofs.LineLocalityProofs Proofs.LinesProofs Proofs.FindSpecProofs Proofs.RegexCandProofs
+  Model.Glue Spec.GrepSpec.
 
 (* 1. line locality (PARTIAL: LF terminator; look-around restricted to LF line anchors and the ASCII
       word assertions — see line_locality_unicode_refuted and line_locality_crlf_refuted for why the
@@ -62,6 +63,62 @@ Theorem candidate_sound_for_lines : forall c acc h lits buf a b i j,
 Proof. exact candidate_never_skips_proof. Qed.
 Print Assumptions candidate_sound_for_lines.
 
+(* 6. The RegexMatcher model meets the searcher's candidate contract (Proofs/FindSpecProofs.v
+      cand_ok: "no line before the candidate's line matches; a Confirmed candidate lies in a line
+      that matches") on every LF-terminated buffer, for every final HIR with local look-around.
+      The matcher is Model/SearcherCore.v's record instantiated by [regex_line_matcher]:
+        m_is_match l       := the final HIR has a match in l          (Spec/RegexSem.v, ends_spec)
+        m_find_candidate   := Candidate(end of the leftmost occurrence of a fast-line literal), or,
+                              without literals, Confirmed(end of the span the regex engine reports)
+        m_nonmatching      := non_matching_bytes final,  m_line_term := the advertised terminator.
+      Hypotheses: (a) no match contains "\n" (discharged in 7 from build_many's promise, C11);
+      (b) [span_ok]: the regex engine's span is a match and no match starts before it — the
+      leftmost-first search of regex-automata is NOT modelled, this is what is assumed of it
+      ([span_ok_satisfiable]: the semantics' own leftmost match meets it);
+      (c) [lits_ok]: the literals are non-empty, contain no "\n", and every region holding a match
+      holds an occurrence (the last is C11's candidate_never_skips_a_matching_line). *)
+Theorem regex_matcher_meets_candidate_contract : forall h span lits cfg adv fa s,
+  local_looks h = true ->
+  (forall buf i j, Matches h buf i j -> forall p, i <= p < j -> byte_at buf p <> 10%N) ->
+  span_ok h span -> lits_ok h lits -> c_lt cfg = LTByte 10 ->
+  cand_ok cfg (regex_line_matcher h adv lits span fa) s.
+Proof. exact regex_cand_ok_proof. Qed.
+Print Assumptions regex_matcher_meets_candidate_contract.
+
+(* 7. Property C01 on the model, for both line paths and every searcher configuration (inversion,
+      context, passthru, stop-on-nonmatch, line numbers; binary detection off): for every final HIR
+      with local look-around that build_many produces with the "\n" terminator advertised, every
+      input s: the whole run of SliceByLine::run — whichever of the fast and the slow path
+      Core::is_line_by_line_fast selects — equals the grep reference whose test "line matches" is
+      "the final HIR has a match in the line's content (terminator removed)".  Props/C03.v reads
+      that reference declaratively (results_delivered / nothing_else_delivered: a line is delivered
+      as a match iff its content matches xor invert).  Remaining hypotheses: span_ok (regex engine,
+      see 6) and "the fast-line literals contain no line feed" (true of the code because the
+      stripped HIR has no leaf that can produce "\n"; not proved here, checked by the C11 oracle). *)
+Theorem c01_lines_reported_iff_content_matches :
+  forall norm, norm_ok norm ->
+  forall rc tr final acc lits span fa cfg s,
+    build norm rc tr = inl (final, Some (RTByte 10)) ->
+    local_looks final = true ->
+    fast_line_literals (inner_literals rc acc final) = lits ->
+    (forall ls l, lits = Some ls -> In l ls -> nolf l) ->
+    span_ok final span ->
+    c_lt cfg = LTByte 10 -> c_binary cfg = BNone ->
+    slice_by_line_run cfg (regex_line_matcher final (Some (RTByte 10)) lits span fa) (fun _ => Continue) s
+    = RunOk (grep_ref cfg (is_match_sem final) s).
+Proof. exact c01_slice_run_eq_ref_proof. Qed.
+Print Assumptions c01_lines_reported_iff_content_matches.
+
+(* the "line matches" test of that reference is the declarative relation *)
+Theorem content_test_is_matches : forall h c, is_match_sem h c = true <-> exists i j, Matches h c i j.
+Proof. exact is_match_sem_iff. Qed.
+Print Assumptions content_test_is_matches.
+
+(* non-vacuity of hypothesis (b) *)
+Theorem span_ok_satisfiable : forall h, span_ok h (sem_span h).
+Proof. exact sem_span_ok. Qed.
+Print Assumptions span_ok_satisfiable.
+
 (* ---- refuted statements (defects) ---- *)
 Definition h_empty_line : hir := HConcat [HLook LStartCRLF; HLook LEndCRLF].     (* (?Rm)^$ *)
 Definition h_not_boundary : hir := HLook LWordAsciiNegate.                          (* (?-u)\B *)
@@ -110,6 +167,17 @@ Example line_locality_example :
   let buf := [120; 10; 97; 98; 10; 99; 100]%N in
   local_looks h = true /\ byte_at buf 1 = 10%N /\ byte_at buf 4 = 10%N /\
   ends h buf 2 = [4] /\ ends h (sub buf 2 4) 0 = [2].
+Proof. vm_compute. repeat split. Qed.
+
+(* `[a-z]+foo$` under rg's default options: accepted with "\n" advertised, local look-around, and the
+   fast-line literal "foo" has no line feed: the hypotheses of theorem 7 hold *)
+Example c01_hypotheses_example :
+  let rc := {| c_line_terminator := Some (RTByte 10); c_ban := Some 0%N; c_crlf := false; c_unicode := true;
+               c_word := false; c_whole_line := false |} in
+  let tr := HConcat [HRep 1 None true (HClassB [(97, 122)]%N); HLit [102; 111; 111]%N; HLook LEndLF] in
+  build (fun h => h) rc tr = inl (tr, Some (RTByte 10)) /\ local_looks tr = true /\
+  fast_line_literals (inner_literals rc false tr) = Some [[102; 111; 111]%N] /\
+  sem_span tr [120; 10; 97; 102; 111; 111; 10]%N = Some (2, 6).
 Proof. vm_compute. repeat split. Qed.
 
 Check line_locality_partial : forall h buf a b i j,
